@@ -46,3 +46,80 @@ package soyhtml
 //@     invariant maxLen <= int(unbox(args[0], data.Int)) && len(gs) > int(unbox(args[0], data.Int)) && substr(str, gs, 0) && len(str) == len(gs)
 //@     invariant bool(ellipsis) ==> maxLen <= int(unbox(args[0], data.Int)) - 3
 //@     decreases maxLen
+
+// errorf always panics (the panic is converted to the render error by errRecover).
+//@ func (*state).errorf
+//@   props C03 C06 C12
+//@   noreturn
+
+// ---------------------------------------------------------------------------
+// The escape decision (C03): a print writes its value through the HTML escaper
+// iff the effective autoescape mode is not "off" and no applied directive
+// cancels autoescaping; otherwise it issues exactly one raw write. Nothing else
+// is written by evalPrint itself.
+//@ func (*state).evalPrint
+//@   props C03
+//@   nosafety
+//@   ghost mode ast.AutoescapeType = 0
+//@   ghost anyCancel bool = false
+//@   ghost writes int = 0
+//@   at call (*state).walk#0 after set mode = s.autoescape
+//@   at call soyhtml.(*state).evalPrint$1#0 after set anyCancel = anyCancel || directive.CancelAutoescape
+//@   at call soyhtml.htmlEscapeString#0 assert[escaped-only-if-on-and-not-cancelled] mode != ast.AutoescapeOff && !anyCancel && writes == 0
+//@   at call soyhtml.htmlEscapeString#0 set writes = writes + 1
+//@   at call io.WriteString#0 assert[raw-only-if-off-or-cancelled] (mode == ast.AutoescapeOff || anyCancel) && writes == 0
+//@   at call io.WriteString#0 set writes = writes + 1
+//@   ensures[one-write] writes == 1
+//@   loop 0
+//@     invariant writes == 0 && !anyCancel
+//@   loop 1
+//@     invariant writes == 0 && escapeHtml == (mode != ast.AutoescapeOff && !anyCancel)
+//@   loop 2
+//@     invariant writes == 0 && escapeHtml == (mode != ast.AutoescapeOff && !anyCancel)
+
+// The builtin directive table (checked at the end of package init; the map is
+// a user-extensible registry, so it is not assumed elsewhere): autoescaping is
+// cancelled exactly by the documented set, and the HTML-producing members of
+// that set are the functions whose contracts below say they escape.
+//@ inittable[cancel-set;C03] PrintDirectives["insertWordBreaks"].CancelAutoescape && PrintDirectives["changeNewlineToBr"].CancelAutoescape && PrintDirectives["id"].CancelAutoescape && PrintDirectives["noAutoescape"].CancelAutoescape && PrintDirectives["escapeHtml"].CancelAutoescape && PrintDirectives["escapeUri"].CancelAutoescape && PrintDirectives["escapeJsString"].CancelAutoescape && PrintDirectives["json"].CancelAutoescape
+//@ inittable[non-cancelling;C03] !PrintDirectives["truncate"].CancelAutoescape && !PrintDirectives["bidiSpanWrap"].CancelAutoescape && !PrintDirectives["bidiUnicodeWrap"].CancelAutoescape && len(PrintDirectives) == 11
+//@ inittable[html-producers;C03] PrintDirectives["escapeHtml"].Apply == directiveEscapeHtml && PrintDirectives["changeNewlineToBr"].Apply == directiveChangeNewlineToBr && PrintDirectives["insertWordBreaks"].Apply == directiveInsertWordBreaks
+//@ inittable[no-obligatory-by-default;C03] len(ObligatoryPrintDirectiveNames) == 0
+
+// HTML-producing directives still escape every data character they pass through.
+//@ func directiveEscapeHtml
+//@   props C03 C16
+//@   nosafety
+//@   ghost vs string = ""
+//@   ghost esc string = ""
+//@   at call data.Value.String#0 after set vs = res
+//@   at call template.HTMLEscapeString#0 assert[escapes-the-value] arg0 == vs
+//@   at call template.HTMLEscapeString#0 after set esc = res
+//@   ensures[no-raw-data] typeis(result, data.String) && unbox(result, data.String) == esc
+
+//@ func directiveChangeNewlineToBr
+//@   props C03 C16
+//@   nosafety
+//@   ghost vs string = ""
+//@   ghost esc string = ""
+//@   ghost out string = ""
+//@   at call data.Value.String#0 after set vs = res
+//@   at call template.HTMLEscapeString#0 assert[escapes-the-value] arg0 == vs
+//@   at call template.HTMLEscapeString#0 after set esc = res
+//@   at call (*regexp.Regexp).ReplaceAllString#0 assert[only-newlines-of-escaped-text] arg1 == esc && bytesare(arg2, "<br>")
+//@   at call (*regexp.Regexp).ReplaceAllString#0 after set out = res
+//@   ensures[no-raw-data] typeis(result, data.String) && unbox(result, data.String) == out
+
+//@ func directiveInsertWordBreaks
+//@   props C03 C16
+//@   nosafety
+//@   ghost vs string = ""
+//@   ghost esc string = ""
+//@   ghost breaks int = 0
+//@   at call data.Value.String#0 after set vs = res
+//@   at call template.HTMLEscapeString#0 assert[escapes-the-value] arg0 == vs
+//@   at call template.HTMLEscapeString#0 after set esc = res
+//@   at call (*bytes.Buffer).WriteString#0 set breaks = breaks + 1
+//@   ensures[no-raw-data] breaks == 0 ==> typeis(result, data.String) && unbox(result, data.String) == esc
+//@   loop 0
+//@     invariant breaks >= 0 && (isnil(output) == (breaks == 0))
